@@ -160,7 +160,7 @@ Proof.
       assert (WP : wpc l' w = wpc l w).
       { destruct (lstep_inv _ _ _ _ H) as (_ & s' & -> & _). apply wpc_ctl_other. exact NA. }
       rewrite WP.
-      destruct a as [b| | | | | | | | | | | | | | | | | | | | |];
+      destruct a as [b| | | | | | | | | | | | | | | | | | | | | |];
         try (destruct (lstep_thread_frame _ _ _ _ w H NA ltac:(intros ? X; discriminate X)) as (F1 & F2 & F3);
              rewrite F1, F2, F3; auto).
       destruct (option_nat_dec (thread_of b) (Some w)) as [T|NT].
